@@ -74,7 +74,8 @@ class CommentsManager:
         # 2. Swap in Relationships (The Fix for Duplicate Warnings)
         # Scan relationships on the main document part and update targets
         for rel in self.doc.part.rels.values():
-            if rel.target_part == part:
+            # External relationships (hyperlinks) have no target part
+            if not rel.is_external and rel.target_part == part:
                 rel._target = xml_part
 
         return xml_part
@@ -105,7 +106,7 @@ class CommentsManager:
 
         # Check relationships manually to be safe (in case cache is stale)
         for rel in self.doc.part.rels.values():
-            if rel.target_part == part:
+            if not rel.is_external and rel.target_part == part:
                 return part
 
         # Create relationship if missing
